@@ -19,9 +19,9 @@ Print Assumptions C10_no_comment_no_record.
    session rejected, has the input's tapes (anchors are atoms of the tape) and the input's records as a prefix *)
 Theorem C10_existing_kept : forall d author ts edits orc,
   let nd := normalize_doc d in
-  let '(d', _, _, _) := apply_edits d author ts edits orc in (wf_ids nd -> RelG (scan_ids nd) (next_comment_id nd) (d_next_uid nd) nd d').
+  let '(d', _, _, _, nn) := apply_edits d author ts edits orc in (wf_ids nd -> nn = 0 -> RelG (scan_ids nd) (next_comment_id nd) (d_next_uid nd) nd d').
 Proof. intros d author ts edits orc. pose proof (engine_contract d author ts edits orc) as H. cbn zeta in *.
-  destruct (apply_edits d author ts edits orc) as [[[d' ap] sk] out]. exact (proj1 H). Qed.
+  destruct (apply_edits d author ts edits orc) as [[[[d' ap] sk] out] nn]. exact (proj1 H). Qed.
 Print Assumptions C10_existing_kept.
 
 (* multi-line / heading new text: a commented block insertion adds exactly one record too - on the heading path track_insert
